@@ -75,7 +75,11 @@ def one(mut, tier):
                 res[prop]['tail'] = tail
         r = res[mut['prop']]
         verdict = 'caught' if (r['rc'] == 1 and mut['prop'] in r['violation_for']) else 'MISSED' if r['rc'] == 0 else 'check-exit-%s' % r['rc']
-        return dict(id=mut['id'], prop=mut['prop'], verdict=verdict, note=mut.get('note', ''), checks=res)
+        if verdict == 'MISSED' and mut.get('equivalent'):
+            verdict = 'not-flagged-equivalent'
+        elif verdict == 'caught' and mut.get('equivalent'):
+            verdict = 'FALSE-ALARM-on-equivalent-mutant'
+        return dict(id=mut['id'], prop=mut['prop'], verdict=verdict, note=mut.get('equivalent') or mut.get('note', ''), checks=res)
     finally:
         shutil.rmtree(scratch, ignore_errors=True)
 
